@@ -4,8 +4,8 @@ import json
 import jsonschema
 
 TECH = ("deterministic simulation with fault injection: seeded search over generated worlds x session histories x "
-        "pool schedules x environments (hash seed, cpu count, memory) x file faults, reference-model oracle, "
-        "shrunk replay files")
+        "pool schedules x environments (hash seed, cpu count, memory, simulated wall clock, env flags, logger level) x "
+        "file faults, reference-model oracle, shrunk replay files")
 
 TRUST = ("trusted base: the reference models in sim/refmodel.py and sim/profiles/*.py, the trace-world generator's "
          "well-formedness guarantees, SimPool's model of multiprocessing.Pool / Manager (submission-order map results, "
@@ -71,7 +71,7 @@ def build(claimed):
                   "known_findings.txt as 'fixed:' entries with their /repo commits. Self-tests: python -m sim.cli selftest determinism|sensitivity."),
         "hooks": {
             "guard": "HTA_VERIF",
-            "enable": "no source hooks: every seam is a module attribute of a library (multiprocessing, os, builtins, io, psutil, tracemalloc, threading) replaced by the harness inside the simulated session (DESIGN.md 4.2); the guard variable is reserved and unused",
+            "enable": "no source hooks: every seam is a module attribute of a library (multiprocessing, os, builtins, io, psutil, tracemalloc, threading, time) replaced by the harness inside the simulated session (DESIGN.md 4.2); the guard variable is reserved and unused",
             "baseline_off_cmd": "cd /repo && /venv/bin/python -m pytest -ra -q -p no:cacheprovider --timeout=900 --continue-on-collection-errors",
             "source_commits": [],
             "add_only": True,
